@@ -306,6 +306,16 @@ pub fn parts(id: &str, tier: &str) -> Option<(Vec<Part>, Info)> {
             s2.label = if id == "C15" { "C15canon" } else { "C16canon" };
             v.push(Part::Hist(spec));
             v.push(Part::Hist(s2));
+        } else if id == "C20" {
+            let mut s2 = spec.clone();
+            s2.label = "C20inject";
+            s2.post = Post::C20;
+            s2.focus = Focus::of(&[20]);
+            s2.max_ops = s2.max_ops.min(30);
+            s2.cases = (s2.cases / 3).max(20);
+            s2.nontrivial = |e| ev_has(e, "c20_inject_after_rejection");
+            v.push(Part::Hist(spec));
+            v.push(Part::Hist(s2));
         } else if id == "C13" {
             v.push(Part::Hist(spec));
             v.push(Part::Pair(pair_spec("C13", &[13], vec!["C13"], tier, nt_ev("c13p"))));
@@ -401,7 +411,7 @@ pub fn run_check(id: &str, tier: &str, seed: u64, replay: Option<&str>) -> i32 {
                         break;
                     }
                     Part::C14 => {
-                        o = crate::c14::replay_c14(p);
+                        o = if txt.contains("\"krate\"") { crate::progs::replay_program(p) } else { crate::c14::replay_c14(p) };
                         break;
                     }
                     Part::Hist(s) if !is_pair => {
@@ -424,7 +434,13 @@ pub fn run_check(id: &str, tier: &str, seed: u64, replay: Option<&str>) -> i32 {
                     Part::Pair(s) => run_pair_check(s, seed),
                     Part::C17 => crate::c17::run_c17(tier, seed),
                     Part::C19 => crate::c19::run_c19_check(tier, seed),
-                    Part::C14 => crate::c14::run_c14_runtime(tier, seed),
+                    Part::C14 => {
+                        let mut o = crate::c14::run_c14_runtime(tier, seed);
+                        if o.violation.is_none() && o.harness_bug.is_none() {
+                            o.merge(crate::progs::run_programs(tier, seed, None));
+                        }
+                        o
+                    }
                 };
                 o.merge(o2);
                 if o.violation.is_some() {
